@@ -41,7 +41,7 @@ def model(chk: Check, tier: str, prefix="C13"):
             if m:
                 viol = m[-1]
             chk.violation(f"spec/{inv}/{viol}", f"TLC: {inv} violated in MC_Client ({cfg}) {viol}", {"tlc": r.error_text(60)})
-        for a in ("COpened", "COpenFailed", "RFault", "RCancelled", "CallClose", "SendFails", "CWake", "ClWake", "PGet"):
+        for a in ("COpened", "COpenFailed", "RFault", "RCancelled", "CallClose", "SendFail", "CWake", "ClWake", "PGet"):
             chk.gate(r.coverage.get(f"N2KClient.{a}", (0, 0))[0] > 0, f"MC_Client action {a} never taken in {cfg}")
         chk.gate(r.distinct > 5000, f"MC_Client/{cfg} explored only {r.distinct} states")
         tot_s += r.distinct
@@ -91,6 +91,27 @@ def fault_injector(kind: str, fault: str, step: int | None, at: float | None, pl
 
 
 CONF: list = []          # (callback regime, conformance log, description) of sessions the model covers
+
+
+class StaleSendPlan(cf.Plan):
+    """from t0 on, drain() on the link that is current at t0 suspends for `delay` seconds and then fails"""
+
+    def __init__(self, refuse: int, delay: float):
+        super().__init__(refuse=refuse)
+        self.delay, self.sess, self.t0, self.link = delay, None, None, None
+
+    def _old(self, conn):
+        if self.sess is None or self.t0 is None or self.sess.loop.time() < self.t0:
+            return False
+        if self.link is None:
+            self.link = conn
+        return conn == self.link
+
+    def drain_delay(self, conn, nth):
+        return self.delay if self._old(conn) else None
+
+    def drain_fails(self, conn, nth):
+        return self._old(conn)
 
 
 def sessions(tier: str, seed: int, kinds=vloop.CLIENTS):
@@ -146,6 +167,21 @@ def sessions(tier: str, seed: int, kinds=vloop.CLIENTS):
                         meta.append((kind, fault, refuse, cb, f"+{dt}s"))
                         if fault in ("eof", "reset"):
                             CONF.append((cb, cf.conformance_log(raw2), f"{kind} {fault} +{dt}s refuse={refuse} callback={cb}"))
+            # a send() suspended in drain() on the old link fails only after the link has been replaced (found by TLC:
+            # MC_Client NeverStuck once send() was modelled as start / suspended / failed): the failure lands while
+            # connect() reports CONNECTED through a suspending callback, or after it
+            if kind != "actisense":
+                for delay in (0.06, 0.2, 0.4):
+                    for cb in ("ok", "slowC", "slow"):
+                        plan = StaleSendPlan(refuse, delay)
+
+                        def stale(s, state, plan=plan, t=t_conn + 3.0):
+                            plan.sess, plan.t0 = s, t - 0.1
+                            s.at_time(t - 0.05, lambda: s.user("send", lambda: s.client.send(cf.iso_request())))
+                            fault_injector(kind, "eof", None, t, plan)(s, state)
+                        log, _ = cf.run(kind, plan, stale, status_cb=cb)
+                        logs.append(log)
+                        meta.append((kind, "stale-send", refuse, cb, f"drain {delay}s"))
             # two faults in a row (the second on the reconnected link)
             plan = cf.Plan(refuse=refuse)
 
